@@ -73,6 +73,9 @@ ids('C16', {1601: 'bulk construction differs from one-by-one insertion', 1602: '
             201: '', 202: '', 203: '', 204: '', 205: '', 206: '', 207: '', 208: '', 708: ''})
 ids('C18', {1801: 'insert_unchecked differs from insert', 1802: 'get_disjoint_unchecked_mut differs from get_disjoint_mut', 1302: '', 1303: '', 811: '',
             201: '', 202: '', 203: '', 204: '', 205: '', 206: '', 207: '', 208: '', 211: '', 212: '', 213: '', 214: '', 215: '', 302: '', 901: '', 903: '', 904: '', 905: ''})
+ids('C17', {1701: 'len() > capacity() under inconsistent Eq', 1702: 'iteration count != len() under inconsistent Eq', 1703: 'aliasing mutable references',
+             1704: 'memory outside the container (canary) overwritten', 1705: 'unexpected panic', 302: 'an element was leaked or destroyed twice', 901: 'double drop',
+             902: 'clone of dead data', 903: 'comparison of dead data', 904: 'dead/out-of-container data handed out', 905: 'borrow of dead data'})
 ids('C06', {501: 'returned reference points outside the container value'})
 
 # engine-level result classes that count for every property whose harness shows them
@@ -141,8 +144,14 @@ fam('c16_set_from', 'g_misc', [(1, 2), (2, 3), (3, 4)], [(4, 5)])
 fam('c18_insert_unchecked', 'g_misc', [1, 2, 3], [4, 5], profiles=('rel', 'dbg'))
 fam('c18_disjoint_unchecked', 'g_misc', [(2, 0), (1, 1), (2, 2), (3, 2), (2, 3), (3, 3)], [(4, 3), (3, 4), (4, 4)], profiles=('rel', 'dbg'))
 
+fam('c17_insert', 'g_liar', [0, 1, 2, 3], [4], profiles=('rel', 'dbg'))
+fam('c17_remove c17_lookup', 'g_liar', [1, 2, 3], [4], profiles=('rel', 'dbg'))
+fam('c17_disjoint', 'g_liar', [(1, 2), (2, 2), (3, 2), (2, 3), (3, 3)], [(4, 3), (4, 4)], profiles=('rel', 'dbg'))
+fam('c17_set', 'g_liar', [(1, 1), (2, 1), (1, 2)], [(2, 2), (3, 2)])   # (2,2): 8 min
+
 # --------------------------------------------------------------------------------------- properties
 PROPS = {
+    'C17': dict(fams='c17_insert c17_remove c17_lookup c17_disjoint c17_set'),
     'C13': dict(fams='c13_disjoint c13_disjoint_tok'),
     'C15': dict(fams='c15_clone c15_set_clone'),
     'C16': dict(fams='c16_from_iter c16_from_array c16_set_from c16_set_from_array c07_extend c07_extend_ref'),
